@@ -170,6 +170,9 @@ class Inv:
         self.chk("rtree-index-matches-elements",
                  list(net._uidForIndex) == list(els) and len(net._rtree.geometries) == len(els),
                  n_index=len(net._uidForIndex), n_elements=len(els))
+        if not bad:
+            for r in net.allRoads:
+                self.road_chain(r)
 
     def inside(self, clause, child, parent, tol=None):
         tol = self.tol if tol is None else tol
@@ -180,6 +183,22 @@ class Inv:
         out = child.polygons.difference(parent.polygons.buffer(tol)).area
         self.chk(clause, out <= 1e-3 * a or out <= 1e-4, child=child.uid, parent=parent.uid,
                  area_outside=_f(out), child_area=_f(a), tolerance=tol)
+
+    def road_chain(self, e):
+        """The sections of one road form a chain, and the ends of the chain carry the road's own
+        links to intersections (ownership consistency between a road and its sections).  Cheap:
+        run for every road of the network in every run (registry), not only for probed elements."""
+        rd, chk = self.rd, self.chk
+        secs = list(e.sections)
+        for a_, b_ in zip(secs, secs[1:]):
+            chk("road-sections-chained", a_._successor is b_, road=e.uid, section=a_.uid,
+                successor=_uid(a_._successor), expected=b_.uid)
+        if secs and isinstance(e._successor, rd.Intersection):
+            chk("road-end-section-leads-to-roads-intersection", secs[-1]._successor is e._successor, road=e.uid,
+                section=secs[-1].uid, section_successor=_uid(secs[-1]._successor), road_successor=_uid(e._successor))
+        if secs and isinstance(e._predecessor, rd.Intersection):
+            chk("road-end-section-leads-to-roads-intersection", secs[0]._predecessor is e._predecessor, road=e.uid,
+                section=secs[0].uid, section_predecessor=_uid(secs[0]._predecessor), road_predecessor=_uid(e._predecessor))
 
     def predsucc(self, e, cls):
         """Link targets must be network elements; mutual pred/succ is only counted (maps declare one-sided links)."""
@@ -253,18 +272,7 @@ class Inv:
             chk("road-children-owner-links", all(l.road is e for l in e.lanes) and all(g.road is e for g in e.laneGroups)
                 and all(s.road is e and all(x.road is e for x in s.lanes) for s in e.sections), road=e.uid)
             self.predsucc(e, rd.Road)
-            # the sections of one road form a chain, and the ends of the chain carry the road's
-            # own links to intersections (ownership consistency between a road and its sections)
-            secs = list(e.sections)
-            for a_, b_ in zip(secs, secs[1:]):
-                chk("road-sections-chained", a_._successor is b_, road=e.uid, section=a_.uid,
-                    successor=_uid(a_._successor), expected=b_.uid)
-            if secs and isinstance(e._successor, rd.Intersection):
-                chk("road-end-section-leads-to-roads-intersection", secs[-1]._successor is e._successor, road=e.uid,
-                    section=secs[-1].uid, section_successor=_uid(secs[-1]._successor), road_successor=_uid(e._successor))
-            if secs and isinstance(e._predecessor, rd.Intersection):
-                chk("road-end-section-leads-to-roads-intersection", secs[0]._predecessor is e._predecessor, road=e.uid,
-                    section=secs[0].uid, section_predecessor=_uid(secs[0]._predecessor), road_predecessor=_uid(e._predecessor))
+            self.road_chain(e)
         elif isinstance(e, rd.RoadSection):
             chk("road-children-owner-links", has(e.road.sections, e), road=_uid(e.road), section=e.uid)
             self.predsucc(e, rd.RoadSection)
